@@ -13,7 +13,7 @@ from mcx.core import Check
 from mcx.ref import exmap as xm
 from mcx.seams import owned_random
 
-SCALES = (1.0, 0.5, 0.25, 1.5, 2.0)
+SCALES = (1.0, 0.5, 0.25, 1.5, 2.0, 0.99999)       # the last: within any "close to one" tolerance, not one
 PLACES = ('near', 'between', 'far', 'neartie', 'onanchor', 'veryfar')
 TOL = 1e-9
 
@@ -28,14 +28,14 @@ class C01(Check):
                  'scale factors on the real ExchangeMap, compared with a brute-force reference map')
     level_text = ('every labelled graph on 3..4 (quick) / 3..5 (thorough) atoms with an anchor, in 11 geometry classes '
                   '(incl. exactly collinear along 6 directions, nearly collinear with sin ~ 1e-9 and 3e-10, axis-aligned right angles, and a generic geometry shrunk to anchor separations of 0.01-0.1 nm), targets of 1-3 '
-                  '(thorough also 6, and 40 on references up to 4 atoms) atoms in 3 tie-free placements and one near-tie placement (the two nearest anchors 1e-8 nm apart in distance), 5 scale factors in (0, 2], all executed on '
+                  '(thorough also 6, and 40 on references up to 4 atoms) atoms in 3 tie-free placements and one near-tie placement (the two nearest anchors 1e-8 nm apart in distance), 6 scale factors in (0, 2], all executed on '
                   'the real code; a coverage statement over this finite product, not a proof for all reals')
     level_note = ('trusted: numpy arithmetic, the graph enumerator (self-tested against closed-form counts), the '
                   'in-memory builders (real parsers), the brute-force reference ref_map; not covered: near-collinear geometries other than the two stated classes, ties between anchors, references above 5 atoms')
     assumptions = ['generic coordinates from a conditioned table selected by VERIF_SEED (sin >= 0.25, separation >= 0.08 nm)',
                    'degenerate classes use dyadic coordinates so collinearity is exact in floating point',
                    'target points have a unique nearest anchor with margin >= 1e-3 nm (enforced by the builder)',
-                   'scale factors from the menu {0.25, 0.5, 1, 1.5, 2}']
+                   'scale factors from the menu {0.25, 0.5, 0.99999, 1, 1.5, 2}']
 
     def units(self, tier, seed):
         nmax = 5 if tier == 'thorough' else 4
@@ -55,6 +55,9 @@ class C01(Check):
             mod = {3: 1, 4: 2, 5: 16}[n]
             for geo in list(xm.NEAR) + list(xm.SMALL):
                 u += [{'n': n, 'geo': [geo], 'mod': mod, 'r': r} for r in range(mod)]
+        # the 5-atom chain bent into two exactly straight arms in generic directions (also in the quick tier)
+        # (first in the list: executed by a worker process that has computed no frame yet)
+        u.insert(0, {'n': 5, 'geo': ['arms'], 'mod': 1, 'r': 0, 'chain': 1})
         self.bounds['topology_edit'] = ('every graph on 3..4 atoms x every one of its edges added LAST, after a first map '
                                         'was built and used on the graph without it; generic geometry')
         u += [{'n': n, 'geo': ['generic'], 'mod': m_, 'r': r, 'edit': 1} for n, m_ in ((3, 1), (4, 6)) for r in range(m_)]
@@ -72,7 +75,10 @@ class C01(Check):
             return
         # thorough: 6-atom target everywhere, the 40-atom target on references up to 4 atoms
         sizes = [1, 2, 3] + ([6] if tier == 'thorough' else []) + ([40] if tier == 'thorough' and n <= 4 else [])
-        for i, edges in enumerate(xm.ref_graphs(n)):
+        graphs = xm.ref_graphs(n)
+        if unit.get('chain'):
+            graphs = [[[i, i + 1] for i in range(n - 1)]]
+        for i, edges in enumerate(graphs):
             if i % unit['mod'] != unit['r']:
                 continue
             for geo in unit['geo']:
